@@ -98,7 +98,7 @@ IterDo(i, o, k) ==
 
 IterSetBounds(i, lo, hi) ==
   /\ i \in 1..Len(iters) /\ lo < hi
-  /\ iters' = [iters EXCEPT ![i].it.lo = lo, ![i].it.hi = hi, ![i].it.pos = -2, ![i].it.pfx = -1, ![i].it.err = FALSE]
+  /\ iters' = [iters EXCEPT ![i].it.lo = lo, ![i].it.hi = hi, ![i].it.pos = -2, ![i].it.pfx = -1, ![i].it.err = FALSE, ![i].it.pa = ""]
   /\ Log([op |-> "setbounds", h |-> iters[i].h, lo |-> lo, hi |-> hi])
   /\ UNCHANGED <<cur, snaps, nval, nh, sets, pois>>
 
